@@ -16,7 +16,7 @@
     regenerated Gen/GenSession.v (STARTTLS row) and Gen/GenTls.v (guards, order
     of calls) and are re-checked by computation here. *)
 From Qv Require Import Common.Bytes Gen.GenNetio Gen.GenSession Gen.GenTls Model.NetRead Model.Session
-  Spec.SessionSpec Proofs.SessionProofs Proofs.AuthSync Model.TlsSwitch Spec.TlsSpec.
+  Spec.SessionSpec Proofs.SessionProofs Proofs.AuthSync Proofs.EsmtpSync Model.TlsSwitch Spec.TlsSpec.
 From Coq Require Import Lia ZArith.
 
 (** ---------- facts regenerated from the C ---------- *)
@@ -230,6 +230,8 @@ Qed.
 
 Lemma authed_same s' s : same_session s' s -> authed s' = authed s.
 Proof. unfold same_session, authed. intros (_ & _ & _ & _ & _ & _ & _ & _ & E). rewrite E. reflexivity. Qed.
+Lemma K_same s' s b : same_session s' s -> K s b -> K s' b.
+Proof. unfold same_session, K. intros (Ec & Ee & _). rewrite Ec, Ee. auto. Qed.
 
 (** ---------- one round, in normal form ---------- *)
 Lemma tstep_cases f o closes t evs so : tstep f o closes t = (evs, so) ->
@@ -662,60 +664,62 @@ Proof.
   rewrite Hmf, Hrc, Hn, Hg. unfold Rc, a_reset. cbn. repeat split; auto.
 Qed.
 
-Theorem tstep_inv f o closes t a evs so : R (o_clear o) (ss t) a -> a_auth a = authed (ss t) ->
+Theorem tstep_inv f o closes t a evs so : R (o_clear o) (ss t) a -> a_auth a = authed (ss t) -> K (ss t) (a_esmtp a) ->
   tstep f o closes t = (evs, so) ->
   exists a', ttrace_run (o_clear o) evs a = Some a'
-    /\ (forall t', so = Some t' -> R (o_clear o) (ss t') a' /\ a_auth a' = authed (ss t')).
+    /\ (forall t', so = Some t' -> R (o_clear o) (ss t') a' /\ a_auth a' = authed (ss t') /\ K (ss t') (a_esmtp a')).
 Proof.
-  intros HR HA Hstep.
+  intros HR HA HK Hstep.
   destruct (tstep_cases _ _ _ _ _ _ Hstep) as [(e0 & so0 & Hs & -> & -> & _)|(l & r' & i & row & ev1 & h & t1 & Hread & Hrow & _)].
   - assert (HR' : R (orc o (tls t)) (ss t) a) by exact HR.
-    destruct (step_spec _ _ _ _ _ _ HR' HA Hs) as (a' & Htr & _ & Hnext).
+    destruct (step_spec _ _ _ _ _ _ HR' HA HK Hs) as (a' & Htr & _ & Hnext).
     exists a'. split.
     + rewrite ttrace_run_app, ttrace_run_tag, <- (trace_run_orc o (tls t)), Htr.
       apply tquiet_trace. destruct (offer_cases o t e0 so0) as [E|E]; rewrite E; reflexivity.
     + intros t' Ht. destruct so0 as [s'|]; [|discriminate]. inversion Ht; subst. cbn [mk ss].
-      destruct (Hnext s' eq_refl) as (HRs & _). split; [exact HRs|].
-      rewrite (trace_run_auth _ _ _ _ Htr), (step_auth _ _ _ _ _ Hs), HA. reflexivity.
+      destruct (Hnext s' eq_refl) as (HRs & _). split; [exact HRs|]. split.
+      * rewrite (trace_run_auth _ _ _ _ Htr), (step_auth _ _ _ _ _ Hs), HA. reflexivity.
+      * rewrite (trace_run_esm _ _ _ _ Htr). exact (step_esm _ _ _ _ _ _ Hs HK).
   - destruct (starttls_round _ _ _ _ _ _ _ _ _ _ Hstep Hread Hrow) as [(Ht & He & Hi & Hm & Hinn & Hcur & [Hsw|Hf])|Hr].
     + destruct Hsw as (segs & l' & _ & -> & ->). exists (a_reset a). split; [reflexivity|].
       intros t' Hx. inversion Hx; subst. cbn [ss].
       assert (HRs : R (o_clear o) (set_rd (ss t) r') a) by exact HR.
       destruct (R_ehlo_state _ _ _ HRs Hm) as (_ & Hmf & Hrc & Hn & Hg).
-      split; [apply (R_after_switch (o_clear o) (set_rd (ss t) r')); auto; exact (proj2 HRs)|].
-      cbn [a_reset a_auth]. exact HA.
+      split; [apply (R_after_switch (o_clear o) (set_rd (ss t) r')); auto; exact (proj2 HRs)|]. split.
+      * cbn [a_reset a_auth]. exact HA.
+      * cbn [a_reset a_esmtp]. split; cbn [set_badcmds set_comstate set_rd esmtp comstate]; [exact (proj1 HK)|discriminate].
     + exists a. split; [apply tquiet_trace; exact (failed_tquiet _ _ _ _ _ _ Hf)|].
       intros t' Hx. unfold round_failed in Hf.
       destruct (handshake _ _ _ _) as [? ?|a0 e' l'| | |]; [contradiction| | | |].
       * destruct Hf as (ev & so' & Ho & _ & ->). destruct so' as [s'|]; [|discriminate]. inversion Hx; subst. cbn [ss].
         pose proof (on_error_same _ _ _ _ Ho) as Hsame.
-        split; [eapply R_same; [exact Hsame|]; exact HR|]. rewrite (authed_same _ _ Hsame). exact HA.
+        split; [eapply R_same; [exact Hsame|]; exact HR|]. split; [rewrite (authed_same _ _ Hsame); exact HA|exact (K_same _ _ _ Hsame HK)].
       * destruct Hf as (ev & so' & Ho & _ & ->). destruct so' as [s'|]; [|discriminate]. inversion Hx; subst. cbn [ss].
         pose proof (on_error_same _ _ _ _ Ho) as Hsame.
-        split; [eapply R_same; [exact Hsame|]; exact HR|]. rewrite (authed_same _ _ Hsame). exact HA.
+        split; [eapply R_same; [exact Hsame|]; exact HR|]. split; [rewrite (authed_same _ _ Hsame); exact HA|exact (K_same _ _ _ Hsame HK)].
       * destruct Hf as (_ & ->). discriminate.
       * destruct Hf as (_ & ->). discriminate.
     + destruct Hr as ((e & -> & Hq & _) & Hs). exists a. split; [apply tquiet_trace, tquiet_tag; exact Hq|].
       intros t' Hx. destruct (Hs t' Hx) as (_ & _ & Hsame).
-      split; [eapply R_same; [exact Hsame|]; exact HR|]. rewrite (authed_same _ _ Hsame). exact HA.
+      split; [eapply R_same; [exact Hsame|]; exact HR|]. split; [rewrite (authed_same _ _ Hsame); exact HA|exact (K_same _ _ _ Hsame HK)].
 Qed.
 
-Theorem tserve_inv fuel o closes : forall t a, R (o_clear o) (ss t) a -> a_auth a = authed (ss t) ->
+Theorem tserve_inv fuel o closes : forall t a, R (o_clear o) (ss t) a -> a_auth a = authed (ss t) -> K (ss t) (a_esmtp a) ->
   ttrace_run (o_clear o) (tserve fuel o closes t) a <> None.
 Proof.
-  induction fuel as [|f IH]; intros t a HR HA; cbn [tserve]; [cbn; discriminate|].
+  induction fuel as [|f IH]; intros t a HR HA HK; cbn [tserve]; [cbn; discriminate|].
   destruct (tstep f o closes t) as [ev so] eqn:Es.
-  destruct (tstep_inv _ _ _ _ _ _ _ HR HA Es) as (a' & Htr & Hnext).
+  destruct (tstep_inv _ _ _ _ _ _ _ HR HA HK Es) as (a' & Htr & Hnext).
   rewrite ttrace_run_app, Htr.
   destruct so as [t'|].
-  - destruct (Hnext t' eq_refl) as (HR' & HA'). apply IH; assumption.
+  - destruct (Hnext t' eq_refl) as (HR' & HA' & HK'). apply IH; assumption.
   - destruct (closes && no_later t); cbn; discriminate.
 Qed.
 
 Theorem reset_after_switch o sc : ttrace_ok (o_clear o) (trun o sc).
 Proof.
   unfold ttrace_ok, trun. cbn [ttrace_run trace_step].
-  apply tserve_inv; [|reflexivity]. unfold tinit. cbn [ss]. split.
+  apply tserve_inv; [|reflexivity|split; discriminate]. unfold tinit. cbn [ss]. split.
   - unfold init_state, Rc, a_init. cbn. repeat split; auto.
   - unfold Irel, init_state. cbn. discriminate.
 Qed.
@@ -731,7 +735,8 @@ Proof.
   - inversion H; subst. left. split; assumption.
   - inversion H; subst. left. split; assumption.
   - destruct n; try (rewrite ?Hp, ?Ht in H; discriminate);
-      try (inversion H; subst; left; split; assumption).
+      try (inversion H; subst; left; split; assumption);
+      try (destruct (negb (a_esmtp a)); [discriminate|]; inversion H; subst; left; split; assumption).
     + inversion H; subst. rewrite Hp. left. split; reflexivity.
     + right. reflexivity.
 Qed.
@@ -896,18 +901,18 @@ Definition fresh_in_tls (t' : tstate) (segs : list bytes) : Prop :=
   /\ rcptcount (ss t') = 0 /\ goodrcpt (ss t') = 0 /\ badcmds (ss t') = 0.
 
 Lemma tserve_factor fuel o closes : forall t a pre post,
-  R (o_clear o) (ss t) a -> a_auth a = authed (ss t) -> tls t = false -> tserve fuel o closes t = pre ++ TSwitch :: post ->
+  R (o_clear o) (ss t) a -> a_auth a = authed (ss t) -> K (ss t) (a_esmtp a) -> tls t = false -> tserve fuel o closes t = pre ++ TSwitch :: post ->
   exists f' t' segs, post = TE true (Note NBadReset) :: tserve f' o closes t' /\ fresh_in_tls t' segs.
 Proof.
-  induction fuel as [|f IH]; intros t a pre post HR HA Ht E; cbn [tserve] in E.
+  induction fuel as [|f IH]; intros t a pre post HR HA HK Ht E; cbn [tserve] in E.
   { destruct pre as [|p [|q pre]]; discriminate. }
   destruct (tstep f o closes t) as [ev so] eqn:Es.
   destruct (tstep_in_clear _ _ _ _ _ _ Ht Es) as [(Hev & Hn)|(Hev & t' & Hso & Ht')].
   - destruct (split_behind TSwitch ev _ pre post (in_clear_no_switch _ Hev) E) as (pre' & -> & Erest).
     destruct so as [t1|].
-    + destruct (tstep_inv _ _ _ _ _ _ _ HR HA Es) as (a' & _ & Hnext).
-      destruct (Hnext t1 eq_refl) as (HR1 & HA1).
-      apply (IH t1 a' pre' post); [exact HR1|exact HA1|apply Hn; reflexivity|exact Erest].
+    + destruct (tstep_inv _ _ _ _ _ _ _ HR HA HK Es) as (a' & _ & Hnext).
+      destruct (Hnext t1 eq_refl) as (HR1 & HA1 & HK1).
+      apply (IH t1 a' pre' post); [exact HR1|exact HA1|exact HK1|apply Hn; reflexivity|exact Erest].
     + exfalso. destruct (closes && no_later t); destruct pre' as [|p [|q pre']]; discriminate.
   - assert (Hin : In TSwitch ev) by (rewrite Hev; right; left; reflexivity).
     destruct (no_cleartext_at_switch _ _ _ _ _ _ Es Hin) as (l & r' & segs & l' & Hread & _ & _ & _ & _ & _ & _ & _ & Hm & _ & Hso').
@@ -934,7 +939,7 @@ Theorem after_switch_only_tls_input o sc pre post : trun o sc = pre ++ TSwitch :
 Proof.
   unfold trun. generalize (tfuel sc) as fu. intros fu E.
   destruct pre as [|p pre]; cbn [app] in E; [discriminate|]. injection E as _ E'.
-  apply (tserve_factor fu o (sc_closes sc) (tinit sc) a_init pre post); [|reflexivity|reflexivity|exact E'].
+  apply (tserve_factor fu o (sc_closes sc) (tinit sc) a_init pre post); [|reflexivity|split; discriminate|reflexivity|exact E'].
   unfold tinit. cbn [ss]. split.
   - unfold init_state, Rc, a_init. cbn. repeat split; auto.
   - unfold Irel, init_state. cbn. discriminate.
